@@ -27,10 +27,11 @@ int late_move_reduction(Depth /* depth */, int move_number)
 
 std::string score2str(Value score)
 {
+    // UCI counts mate distances in moves, the scores count plies
     if (score <= lost_in(MAX_DEPTH))
-        return "mate -" + std::to_string(VALUE_MATE + score);
+        return "mate -" + std::to_string((VALUE_MATE + score + 1) / 2);
     else if (score >= win_in(MAX_DEPTH))
-        return "mate " + std::to_string(VALUE_MATE - score);
+        return "mate " + std::to_string((VALUE_MATE - score + 1) / 2);
     else
         return "cp " + std::to_string(score * 100LL / PIECE_VALUE[PAWN].eg);
 }
